@@ -102,3 +102,97 @@ def fact(ctx, rule, f, what, got, want, doc):
         ctx.extra.setdefault("_fact_mismatch", []).append({"rule": rule, "where": getattr(f, "fq", str(f)), "got": got, "want": want})
     return ctx.check(got == want, rule, f, "%s: %s" % (what, got), doc,
                      "%s -- found %s, expected %s" % (doc, got, want))
+
+
+# ---------------------------------------------------------------------------------------------
+# semantic comparison of case tables: two lists of (path condition, value) describe the same function iff they agree
+# under every truth assignment of the atomic conditions (complementary literals are recognised as negations)
+
+import itertools as _it
+import re as _re
+
+
+def _atomise(lit: str):
+    """canonical literal -> (atom, polarity)"""
+    lit = lit.strip()
+    if lit.startswith("not(") and lit.endswith(")"):
+        a, p = _atomise(lit[4:-1])
+        return a, not p
+    if lit.startswith("empty(") and lit.endswith(")"):
+        return "nonempty(" + lit[6:-1] + ")", False
+    m = _re.match(r"^\((.*) (<=|<|==|!=) (.*)\)$", lit)
+    if m:
+        a, op, b = m.group(1), m.group(2), m.group(3)
+        if op == "!=":
+            return "(%s == %s)" % (a, b), False
+        if op == "<=":           # a <= b  ==  not (b < a)
+            return "(%s < %s)" % (b, a), False
+        return "(%s %s %s)" % (a, op, b), True
+    return lit, True
+
+
+def _parse_cond(lit: str):
+    """a literal of cond_literals -> DNF: list of conjunctions, each a list of (atom, polarity)"""
+    lit = lit.strip()
+    if lit.startswith("(") and lit.endswith(")") and " | " in lit:
+        inner = lit[1:-1]
+        parts, d, cur = [], 0, ""
+        i = 0
+        while i < len(inner):
+            ch = inner[i]
+            if ch in "([{":
+                d += 1
+            elif ch in ")]}":
+                d -= 1
+            if d == 0 and inner.startswith(" | ", i):
+                parts.append(cur)
+                cur = ""
+                i += 3
+                continue
+            cur += ch
+            i += 1
+        parts.append(cur)
+        if len(parts) > 1:
+            return [[_atomise(x) for x in p.split("&")] for p in parts]
+    return [[_atomise(lit)]]
+
+
+def case_function(cases):
+    """cases: list of (conds tuple, value) -> (sorted atoms, {assignment tuple: value or None})"""
+    parsed = []
+    atoms = set()
+    for conds, val in cases:
+        dnf = [[]]
+        for lit in conds:
+            alts = _parse_cond(lit)
+            dnf = [c + a for c in dnf for a in alts]
+        parsed.append((dnf, val))
+        for conj in dnf:
+            for a, _p in conj:
+                atoms.add(a)
+    atoms = sorted(atoms)
+    if len(atoms) > 10:
+        return atoms, None
+    table = {}
+    for bits in _it.product([False, True], repeat=len(atoms)):
+        env = dict(zip(atoms, bits))
+        vals = {val for dnf, val in parsed if any(all(env[a] == p for a, p in conj) for conj in dnf)}
+        table[bits] = tuple(sorted(vals))
+    return atoms, table
+
+
+def same_cases(found, expected) -> bool:
+    """do two case tables define the same function of their atomic conditions?"""
+    fa, ft = case_function(found)
+    ea, et = case_function(expected)
+    if ft is None or et is None:
+        return sorted(found) == sorted(expected)
+    atoms = sorted(set(fa) | set(ea))
+    for bits in _it.product([False, True], repeat=len(atoms)):
+        env = dict(zip(atoms, bits))
+        kf = tuple(env[a] for a in fa)
+        ke = tuple(env[a] for a in ea)
+        # infeasible combinations of arithmetic atoms (a < b and b < a ...) are not pruned: both tables are evaluated on them alike
+        if ft[kf] != et[ke]:
+            return False
+    return True
